@@ -79,7 +79,10 @@ def sortStrs (l : List String) : List String := l.mergeSort (fun a b => a ≤ b)
 
 def Obj.repr (o : Obj) : String :=
   let conds := sortStrs (o.conds.map fun c => c.1 ++ ":" ++ reasonOf c.2)
-  s!"del={b01 o.del} fins={",".intercalate o.fins} pkgs={",".intercalate o.pkgs} inuse={b01 o.inuse} conds={",".intercalate conds}"
+  (if o.del then "del " else "") ++ "fins=" ++ ",".intercalate o.fins ++
+  (if o.pkgs.isEmpty then "" else " pkgs=" ++ ",".intercalate o.pkgs) ++
+  (if o.inuse then " inuse" else "") ++
+  (if conds.isEmpty then "" else " conds=" ++ ",".intercalate conds)
 
 def Obj.keyStr (o : Obj) : String := o.key.kind.str ++ "/" ++ o.key.name
 
@@ -130,7 +133,8 @@ structure StepObs where
   chg : List String := []
 
 def StepObs.json (o : StepObs) : Json :=
-  Json.mkObj [("call", .str o.call), ("resp", .str o.resp), ("res", .str o.res), ("chg", Json.arr (o.chg.map Json.str).toArray)]
+  let opt (k v : String) : List (String × Json) := if v.isEmpty then [] else [(k, .str v)]
+  Json.mkObj (opt "call" o.call ++ opt "resp" o.resp ++ opt "res" o.res ++ [("chg", Json.arr (o.chg.map Json.str).toArray)])
 
 /-- one step with its observation; the Bool is the model-side monitor, the last
 component tells whether the model left its domain (a live object was reconciled) -/
